@@ -1912,6 +1912,36 @@ impl Vm {
         self.set_global(module_path, "HashMap", Value::ObjClass(obj_hash_map_class));
         let obj_fiber_class = self.class_store.fiber_class();
         self.set_global(module_path, "Fiber", Value::ObjClass(obj_fiber_class));
+        let error_class = self.class_store.error_class();
+        self.set_global(module_path, "Error", Value::ObjClass(error_class));
+        let runtime_error_class = self.class_store.runtime_error_class();
+        self.set_global(
+            module_path,
+            "RuntimeError",
+            Value::ObjClass(runtime_error_class),
+        );
+        let attribute_error_class = self.class_store.attribute_error_class();
+        self.set_global(
+            module_path,
+            "AttributeError",
+            Value::ObjClass(attribute_error_class),
+        );
+        let index_error_class = self.class_store.index_error_class();
+        self.set_global(module_path, "IndexError", Value::ObjClass(index_error_class));
+        let import_error_class = self.class_store.import_error_class();
+        self.set_global(
+            module_path,
+            "ImportError",
+            Value::ObjClass(import_error_class),
+        );
+        let name_error_class = self.class_store.name_error_class();
+        self.set_global(module_path, "NameError", Value::ObjClass(name_error_class));
+        let type_error_class = self.class_store.type_error_class();
+        self.set_global(module_path, "TypeError", Value::ObjClass(type_error_class));
+        let value_error_class = self.class_store.value_error_class();
+        self.set_global(module_path, "ValueError", Value::ObjClass(value_error_class));
+        let stop_iter_class = self.class_store.stop_iter_class();
+        self.set_global(module_path, "StopIter", Value::ObjClass(stop_iter_class));
     }
 
     fn load_frame(&mut self) {
